@@ -4,7 +4,7 @@
 use aries_askar as _; // make sure the crate (and its #[no_mangle] symbols) is linked
 use once_cell::sync::Lazy;
 use std::collections::HashMap;
-use std::os::raw::c_char;
+use std::os::raw::{c_char, c_void};
 use std::sync::atomic::{AtomicI64, Ordering};
 use std::sync::{Condvar, Mutex};
 use std::time::{Duration, Instant};
@@ -30,6 +30,25 @@ pub struct SecretBuf {
     pub len: i64,
     pub data: *mut u8,
 }
+
+#[repr(C)]
+#[derive(Clone, Copy, Debug, Default, PartialEq, Eq)]
+pub struct AeadParams {
+    pub nonce_length: i32,
+    pub tag_length: i32,
+}
+
+#[repr(C)]
+#[derive(Clone, Copy)]
+pub struct EncryptedBuf {
+    pub buffer: SecretBuf,
+    pub tag_pos: i64,
+    pub nonce_pos: i64,
+}
+
+pub type EnabledCb = extern "C" fn(context: *const c_void, level: i32) -> i8;
+pub type LogCb = extern "C" fn(context: *const c_void, level: i32, target: *const c_char, message: *const c_char, module_path: *const c_char, file: *const c_char, line: i32);
+pub type FlushCb = extern "C" fn(context: *const c_void);
 
 pub type Code = i64;
 pub type CbUnit = Option<extern "C" fn(i64, Code)>;
@@ -102,6 +121,30 @@ extern "C" {
     pub fn askar_session_fetch_all_keys(h: H, alg: *const c_char, thumbprint: *const c_char, tag_filter: *const c_char, limit: i64, for_update: i8, cb: CbPtr, cb_id: i64) -> Code;
     pub fn askar_session_update_key(h: H, name: *const c_char, metadata: *const c_char, tags: *const c_char, expiry_ms: i64, cb: CbUnit, cb_id: i64) -> Code;
     pub fn askar_session_remove_key(h: H, name: *const c_char, cb: CbUnit, cb_id: i64) -> Code;
+    // --- entry points added for the coverage gaps (COVERAGE.md rows 3, 4, 13, 14, 16)
+    pub fn askar_key_from_jwk(jwk: ByteBuf, out: *mut P) -> Code;
+    pub fn askar_key_from_public_bytes(alg: *const c_char, public: ByteBuf, out: *mut P) -> Code;
+    pub fn askar_key_from_secret_bytes(alg: *const c_char, secret: ByteBuf, out: *mut P) -> Code;
+    pub fn askar_key_convert(k: P, alg: *const c_char, out: *mut P) -> Code;
+    pub fn askar_key_from_key_exchange(alg: *const c_char, sk: P, pk: P, out: *mut P) -> Code;
+    pub fn askar_key_aead_get_params(k: P, out: *mut AeadParams) -> Code;
+    pub fn askar_key_aead_get_padding(k: P, msg_len: i64, out: *mut i32) -> Code;
+    pub fn askar_key_aead_encrypt(k: P, message: ByteBuf, nonce: ByteBuf, aad: ByteBuf, out: *mut EncryptedBuf) -> Code;
+    pub fn askar_key_aead_decrypt(k: P, ciphertext: ByteBuf, nonce: ByteBuf, tag: ByteBuf, aad: ByteBuf, out: *mut SecretBuf) -> Code;
+    pub fn askar_key_wrap_key(k: P, other: P, nonce: ByteBuf, out: *mut EncryptedBuf) -> Code;
+    pub fn askar_key_unwrap_key(k: P, alg: *const c_char, ciphertext: ByteBuf, nonce: ByteBuf, tag: ByteBuf, out: *mut P) -> Code;
+    pub fn askar_key_crypto_box(recip: P, sender: P, message: ByteBuf, nonce: ByteBuf, out: *mut SecretBuf) -> Code;
+    pub fn askar_key_crypto_box_open(recip: P, sender: P, message: ByteBuf, nonce: ByteBuf, out: *mut SecretBuf) -> Code;
+    pub fn askar_key_crypto_box_seal(k: P, message: ByteBuf, out: *mut SecretBuf) -> Code;
+    pub fn askar_key_crypto_box_seal_open(k: P, ciphertext: ByteBuf, out: *mut SecretBuf) -> Code;
+    pub fn askar_key_derive_ecdh_es(alg: *const c_char, ephem: P, recip: P, alg_id: ByteBuf, apu: ByteBuf, apv: ByteBuf, receive: i8, out: *mut P) -> Code;
+    pub fn askar_key_derive_ecdh_1pu(alg: *const c_char, ephem: P, sender: P, recip: P, alg_id: ByteBuf, apu: ByteBuf, apv: ByteBuf, cc_tag: ByteBuf, receive: i8, out: *mut P) -> Code;
+    pub fn askar_store_remove(uri: *const c_char, cb: CbI8, cb_id: i64) -> Code;
+    pub fn askar_store_copy(h: H, target_uri: *const c_char, method: *const c_char, pass_key: *const c_char, recreate: i8, cb: CbHandle, cb_id: i64) -> Code;
+    pub fn askar_migrate_indy_sdk(spec_uri: *const c_char, wallet_name: *const c_char, wallet_key: *const c_char, kdf_level: *const c_char, cb: CbUnit, cb_id: i64) -> Code;
+    pub fn askar_set_custom_logger(context: *const c_void, log: LogCb, enabled: Option<EnabledCb>, flush: Option<FlushCb>, max_level: i32) -> Code;
+    pub fn askar_clear_custom_logger();
+    pub fn askar_set_default_logger() -> Code;
 }
 
 pub fn code_name(c: Code) -> String {
